@@ -10,7 +10,8 @@ CORRESPONDENCE = "every modelled entry point (Parse, Vars, Path/Ops, Normalize, 
 RULE = ("dedicated malformed streams: (a) arbitrary byte strings (random bytes, truncated / bit-flipped / deeply nested documents, YAML "
         "anchors and merge keys, invalid UTF-8) through yaml/json/hjson.NewConfig with and without PathSep/VarExp, followed by Unpack and "
         "FlattenedKeys; (b) exhaustive strings of length <= 4 (thorough 5) over [ ] { } \" ' \\\\ , : $ space a 1 - for parse.Value* under "
-        "every parse.Config (invalid combinations included) and as settings under VarExp; (c) (name, idx) pairs with idx in {-2^63, -5, "
+        "every parse.Config (invalid combinations included) and as settings under VarExp, plus concatenations of 2-6 well-formed and "
+        "malformed expansion pieces (tokens pending behind a parse error); (c) names made of separators only / with empty segments and (name, idx) pairs with idx in {-2^63, -5, "
         "-1, 0, len-1, len, MaxIdx, MaxIdx+1, 2^40} for every getter/setter/Has/Remove/Child; (d) Unpack targets of unsupported kinds "
         "(chan, func, complex, map[int]T, *interface{}, **T, non-pointers) next to supported ones. Observable: returned / error / PANIC "
         "/ FATAL (process death, incl. stack overflow under a 64 MiB limit and memory under a 1 GiB GOMEMLIMIT) / timeout / leaked "
@@ -115,13 +116,21 @@ def gen(rng, tier):
             yield {"k": "eval", "from": M([("n0", S("v")), ("s", S(s))]), "opts": [opt("VarExp")], "merges": [], "ropts": [opt("VarExp")],
                    "reads": [{"r": "get", "type": "String", "name": "s", "idx": -1}, {"r": "view"}, {"r": "keys"}], "repeat": 1,
                    "_tag": "varexp/short", "_nt": True, "_sig": "varexp|" + "".join(sorted(set(s)))}
+    # (b2) malformed expansions with further tokens pending (the lexer goroutine must still be drained)
+    pieces = ["${}", "${a}", "${", "}", "${a:", "${b:-x}", " and ", "x", "${${}}", "${a:${b}}", "$", "${a:+", "${:}", "tail", "${a.b}", "${.}", "${..}"]
+    for _ in range(200 if tier == "quick" else 3000):
+        s = "".join(rng.pick(pieces) for _ in range(2 + rng.below(5)))
+        yield {"k": "eval", "from": M([("a", S("v")), ("b", S("w")), ("s", S(s))]), "opts": [opt("VarExp")] + ([opt("PathSep", ".")] if rng.chance(0.5) else []),
+               "merges": [], "ropts": [opt("VarExp")] + ([opt("PathSep", ".")] if rng.chance(0.5) else []),
+               "reads": [{"r": "get", "type": "String", "name": "s", "idx": -1}, {"r": "view"}, {"r": "keys"}], "repeat": 1,
+               "_tag": "varexp/pieces", "_nt": True, "_sig": "pieces|" + "".join(sorted(set(ch for ch in s if ch in "${}:.")))[:8] + str(min(s.count("${"), 4))}
     # (c) name/idx extremes
     idxs = [-(1 << 63), -5, -1, 0, 1, 2, 3, 1024, 1025, 1 << 40, (1 << 63) - 1]
     for _ in range(150 if tier == "quick" else 1500):
         ops = []
         for _ in range(1 + rng.below(5)):
             k = rng.pick(["set", "remove", "get", "has", "child", "setchild"])
-            o = {"op": k, "h": 0, "name": rng.pick(["", "l", "a", "a.b", "l.1", "-1", "a.-1", "1e3", "0x10"]), "idx": rng.pick(idxs),
+            o = {"op": k, "h": 0, "name": rng.pick(["", "l", "a", "a.b", "l.1", "-1", "a.-1", "1e3", "0x10", ".", "..", "...", "a..b", ".a", "a.", "l..1", "a.b."]), "idx": rng.pick(idxs),
                  "opts": [opt("PathSep", ".")] if rng.chance(0.6) else []}
             if k == "set": o["val"] = U(1)
             if k == "setchild": o["val"] = M([("z", U(1))]); o["copts"] = []
